@@ -4,6 +4,7 @@
    oracle list os (ANY list: the life-cycle theorems do not rely on the kernel behaving);
    the result flag tells whether the loop has exited.  Traces are newest-first. *)
 From MV Require Import C13.Model C13.ProofsLife C13.ProofsIso C13.ProofsAgree C13.ProofsRead C13.ProofsFix C13.ProofsFlat.
+From MV Require Import Lib.Leaf C13.Decide gen.Params_C13 C13.ProofsGen C13.ProofsGenModel C13.ProofsPrerun C13.ProofsBoundary C13.ProofsTmr C13.ProofsReset.
 From Coq Require Import Permutation.
 
 (* the close callback runs at most once per context *)
@@ -191,3 +192,239 @@ Theorem evl_backends_agree_refuted : exists sc fuel,
   ~ agree sc fuel.
 Proof. exact agree_refuted. Qed.
 Print Assumptions evl_backends_agree_refuted.
+
+(* ---- timers and connection resets are inside the quantifier of every theorem above: a script may install a timer
+   (interval 0: a tick after every pass, also one in which the kernel reported nothing - n = 0 -, scripted timer
+   phases, ETimer in the trace) and may make a peer RESET the connection (AReset: the kernel reports IN | HUP | ERR,
+   the read behind the pending data fails with ECONNRESET and flags the context CLOSED exactly like end of file:
+   gen_loop_matches_model, muggle_ev_ctx_read).  With a timer every iteration ends with the timer callback, before
+   to_exit is tested (so an exit requested from a timer phase is honoured without another kernel call: [run]). *)
+Theorem evl_timer_tick_each_pass : forall o s, tmr s = true ->
+  exists t, tr (Model.iter o s) = t ++ ETimer :: tr (iter0 o s).
+Proof. exact timer_tick_each_pass. Qed.
+Print Assumptions evl_timer_tick_each_pass.
+
+(* read errors: from an accepted reset until the context's next read callback (whatever else happens: [fdm_all] is
+   the one-way evolution of descriptor state that every step other than the context's own read obeys,
+   ProofsRead.fdm_do_acts) the kernel reports IN | HUP | ERR for it, and that read callback - which offers the pending
+   bytes first - leaves the context flagged CLOSED; by evl_step_decisions_are_the_models below each back-end closes a
+   context that is flagged after its read callback in that very step.  Example of the hypotheses:
+   ProofsReset.read_error_flags_example. *)
+Theorem evl_read_error_flags : forall y s s2,
+  can_reset (cx s y) = true -> fdm_all (do_act (AReset y) s) s2 ->
+  events_c (cx s2 y) = 7 /\ cflag (cx (cb_read y s2) y) = true.
+Proof. exact read_error_flags. Qed.
+Print Assumptions evl_read_error_flags.
+
+(* ---- exit requested BEFORE muggle_evloop_run (by the creating thread: phase 0 of the script).
+   muggle_evloop_exit sets to_exit = EXIT and wakes the loop; every back-end tests to_exit only after a pass.
+   (1) for EVERY script, back-end and kernel oracle the loop then performs exactly one pass and runs the
+       clear / exit epilogue; *)
+Theorem evl_prerun_exit_one_pass :
+  (forall b sc o os, toexit (start b sc) = true -> runs b sc (o :: os) = (finish (Model.iter o (start b sc)), true)) /\
+  (forall b sc fuel, toexit (start b sc) = true ->
+     runks b sc (S fuel) = (finish (Model.iter (kern_o (start b sc)) (start b sc)), true)).
+Proof. exact (conj prerun_one_pass_oracle prerun_one_pass). Qed.
+Print Assumptions evl_prerun_exit_one_pass.
+
+(* (2) on the class PRX (one phase, no triggers, no scripted shutdown, exit in that phase, adds fitting
+       hints_max_fd, at most one descriptor reporting input and hang-up together) that pass offers every
+       registered context everything that was pending for it, closes it iff its peer's write side was shut,
+       clears it otherwise - the same in the three back-ends; *)
+Theorem evl_prerun_exit_outcome : forall sc, prx sc = true -> forall b fuel,
+  snd (runks b sc (S fuel)) = true /\ forall x, outcome (fst (runks b sc (S fuel))) x = prx_outcome sc x.
+Proof. exact prx_outcome_all. Qed.
+Print Assumptions evl_prerun_exit_outcome.
+
+Theorem evl_prerun_exit_agree : forall sc, prx sc = true -> forall f1 f2 f3,
+  snd (runks BSelect sc (S f1)) = true /\ snd (runks BPoll sc (S f2)) = true /\ snd (runks BEpoll sc (S f3)) = true /\
+  forall x, outcome (fst (runks BSelect sc (S f1))) x = outcome (fst (runks BPoll sc (S f2))) x /\
+            outcome (fst (runks BSelect sc (S f1))) x = outcome (fst (runks BEpoll sc (S f3))) x.
+Proof. exact prerun_agree. Qed.
+Print Assumptions evl_prerun_exit_agree.
+
+(* (3) the last condition of PRX is sharp: with two descriptors reporting input and hang-up together above a
+       ready slot, poll's count n is used up before that slot and its input stays undelivered in the single
+       pass (the documented double decrement, here combined with the exit) - select and epoll deliver it.
+       This, and only this, is the pre-run part of the known finding. *)
+Theorem evl_prerun_exit_double_refuted :
+  prx prx_double_witness = false /\
+  cnt (dblc (prx_state prx_double_witness)) (clist (prx_state prx_double_witness)) = 2 /\
+  outcome (fst (runks BSelect prx_double_witness 1)) 1 = (5, false, true) /\
+  outcome (fst (runks BEpoll prx_double_witness 1)) 1 = (5, false, true) /\
+  outcome (fst (runks BPoll prx_double_witness 1)) 1 = (0, false, true).
+Proof. exact prerun_double_refuted. Qed.
+Print Assumptions evl_prerun_exit_double_refuted.
+
+(* ---- the boundary of the proved class SWT, in both directions (C13/ProofsBoundary.v).
+   (1) a script is in SWT iff it has none of fifteen named features (order of [features]: trigger exit, trigger
+       shutdown of another context, of its own context before everything was read, of its own context afterwards,
+       trigger add, threshold 0, duplicate trigger lines, terminator listed before a later-threshold line, a peer
+       terminated by one context and fed by another, exit in a phase, shutdown in a phase, more adds than
+       hints_max_fd, a connection reset from a trigger, from a phase, a timer); *)
+Theorem evl_swt_boundary_complete : forall sc,
+  swt sc = negb (existsb (fun b => b) (features sc)) /\
+  (swt sc = true <-> forall b, In b (features sc) -> b = false).
+Proof. exact (fun sc => conj (swt_boundary sc) (swt_iff_no_feature sc)). Qed.
+Print Assumptions evl_swt_boundary_complete.
+
+(* (2) for ten of them a script having ONLY that feature on which the three loops exit and disagree on a
+       context's outcome (the other five - trigger add, own-context shutdown after everything was read,
+       duplicate lines, a reset from a trigger or a phase - are open: no disagreement known, agreement not proved,
+       monitor-checked). *)
+Theorem evl_swt_boundary_witnesses :
+  (features w_trig_exit = only 0 /\ disagree w_trig_exit 12 2) /\
+  (features witness_cross_shutdown = only 1 /\ disagree witness_cross_shutdown 12 2) /\
+  (features w_shut_early = only 2 /\ disagree w_shut_early 12 2) /\
+  (features w_thr0 = only 5 /\ disagree w_thr0 12 2) /\
+  (features w_unsorted = only 7 /\ disagree w_unsorted 12 2) /\
+  (features w_multi = only 8 /\ disagree w_multi 12 3) /\
+  (features w_ph_exit = only 9 /\ disagree w_ph_exit 12 2) /\
+  (features w_ph_shut = only 10 /\ disagree w_ph_shut 12 1) /\
+  (features w_cap = only 11 /\ disagree w_cap 12 2) /\
+  (features w_timer = only 14 /\ disagree w_timer 12 2).
+Proof. exact boundary_witnesses. Qed.
+Print Assumptions evl_swt_boundary_witnesses.
+
+(* ---- second tie (DESIGN.md 4.4): the C text of this run, sliced by lib/props/c13_slice.py into the gen_
+   functions of gen/Params_C13.v (callbacks and bookkeeping calls in execution order, tables afterwards; the
+   k-th callback havocs the flags (FL k c) and to_exit (TE k); poll: a read callback may register one context;
+   instances with a timer (Some (tmo, elapsed)) and with every callback NULL (no_cbs)).
+   Each generated instance equals the reference function of C13/Decide.v, which is written once for every table
+   size / batch / list; the references' per-visit decisions are the model's (evl_step_decisions_are_the_models). *)
+Local Open Scope Z_scope.
+
+(* the constants of the headers of this run have the relations the model relies on *)
+Theorem gen_constants_match_model : consts_ok code_consts = true.
+Proof. exact code_consts_ok. Qed.
+Print Assumptions gen_constants_match_model.
+
+(* poll: one pass of muggle_evloop_run_poll over a table of 2 slots (a read callback may append a slot), of 3
+   slots, of the signal slot alone with a timer (n = 0 returns, the timeout of the next poll()), of 2 slots with
+   every callback NULL; muggle_evloop_add_ctx_poll; muggle_evloop_init_poll *)
+Theorem gen_poll_matches_model :
+  (forall FL TE AD NW NS fdof evfd a1 d1 r0 r1 r2 n err,
+  gen_poll_run_2 FL TE AD NW NS fdof evfd a1 d1 r0 r1 r2 n err =
+  ref_poll_run code_consts FL TE all_cbs None AD NW NS fdof false [(0, evfd, r0); (a1, d1, r1)] n err) /\
+  (forall FL TE AD NW NS fdof evfd a1 a2 d1 d2 r0 r1 r2 n err,
+  gen_poll_run_3 FL TE AD NW NS fdof evfd a1 a2 d1 d2 r0 r1 r2 n err =
+  ref_poll_run code_consts FL TE all_cbs None AD NW NS fdof true [(0, evfd, r0); (a1, d1, r1); (a2, d2, r2)] n err) /\
+  (forall FL TE AD NW NS fdof evfd r0 n err tmo elapsed,
+  gen_poll_run_timer FL TE AD NW NS fdof evfd r0 n err tmo elapsed =
+  ref_poll_run code_consts FL TE all_cbs (Some (tmo, elapsed)) AD NW NS fdof true [(0, evfd, r0)] n err) /\
+  (forall FL TE AD NW NS fdof evfd a1 d1 r0 r1 n err,
+  gen_poll_run_nocb FL TE AD NW NS fdof evfd a1 d1 r0 r1 n err =
+  ref_poll_run code_consts FL TE no_cbs None AD NW NS fdof true [(0, evfd, r0); (a1, d1, r1)] n err) /\
+  (forall fdof nfd cap c,
+  gen_add_ctx_poll fdof nfd cap c = ref_add_ctx_poll code_consts fdof nfd cap c) /\
+  (forall evfd hints,
+  gen_init_poll evfd hints = ref_init_poll code_consts evfd hints).
+Proof. exact (conj gen_poll_run_2_ref (conj gen_poll_run_3_ref (conj gen_poll_run_timer_ref (conj gen_poll_run_nocb_ref (conj gen_add_ctx_poll_ref gen_init_poll_ref))))). Qed.
+Print Assumptions gen_poll_matches_model.
+
+(* epoll: muggle_evloop_run_epoll for the batches {}, error, {ctx}, {signal}, {ctx, signal}, {signal, ctx},
+   {ctx, ctx}, {} with a timer, {ctx, signal} with every callback NULL; muggle_evloop_add_ctx_epoll;
+   muggle_evloop_init_epoll *)
+Theorem gen_epoll_matches_model :
+  (forall FL TE fdof evfd epfd cap p1 p2 e1 e2 err,
+  gen_epoll_run_none FL TE fdof evfd epfd cap p1 p2 e1 e2 err =
+  ref_epoll_run code_consts FL TE all_cbs None fdof evfd cap (Some []) err) /\
+  (forall FL TE fdof evfd epfd cap p1 p2 e1 e2 err,
+  gen_epoll_run_err FL TE fdof evfd epfd cap p1 p2 e1 e2 err =
+  ref_epoll_run code_consts FL TE all_cbs None fdof evfd cap (None) err) /\
+  (forall FL TE fdof evfd epfd cap p1 p2 e1 e2 err,
+  gen_epoll_run_c FL TE fdof evfd epfd cap p1 p2 e1 e2 err =
+  ref_epoll_run code_consts FL TE all_cbs None fdof evfd cap (Some [EvCtx p1 e1]) err) /\
+  (forall FL TE fdof evfd epfd cap p1 p2 e1 e2 err,
+  gen_epoll_run_s FL TE fdof evfd epfd cap p1 p2 e1 e2 err =
+  ref_epoll_run code_consts FL TE all_cbs None fdof evfd cap (Some [EvSig e1]) err) /\
+  (forall FL TE fdof evfd epfd cap p1 p2 e1 e2 err,
+  gen_epoll_run_cs FL TE fdof evfd epfd cap p1 p2 e1 e2 err =
+  ref_epoll_run code_consts FL TE all_cbs None fdof evfd cap (Some [EvCtx p1 e1; EvSig e2]) err) /\
+  (forall FL TE fdof evfd epfd cap p1 p2 e1 e2 err,
+  gen_epoll_run_sc FL TE fdof evfd epfd cap p1 p2 e1 e2 err =
+  ref_epoll_run code_consts FL TE all_cbs None fdof evfd cap (Some [EvSig e1; EvCtx p2 e2]) err) /\
+  (forall FL TE fdof evfd epfd cap p1 p2 e1 e2 err,
+  gen_epoll_run_cc FL TE fdof evfd epfd cap p1 p2 e1 e2 err =
+  ref_epoll_run code_consts FL TE all_cbs None fdof evfd cap (Some [EvCtx p1 e1; EvCtx p2 e2]) err) /\
+  (forall FL TE fdof evfd epfd cap p1 p2 e1 e2 err tmo elapsed,
+  gen_epoll_run_timer FL TE fdof evfd epfd cap p1 p2 e1 e2 err tmo elapsed =
+  ref_epoll_run code_consts FL TE all_cbs (Some (tmo, elapsed)) fdof evfd cap (Some []) err) /\
+  (forall FL TE fdof evfd epfd cap p1 p2 e1 e2 err,
+  gen_epoll_run_nocb FL TE fdof evfd epfd cap p1 p2 e1 e2 err =
+  ref_epoll_run code_consts FL TE no_cbs None fdof evfd cap (Some [EvCtx p1 e1; EvSig e2]) err) /\
+  (forall fdof epfd c ctlret,
+  gen_add_ctx_epoll fdof epfd c ctlret = ref_add_ctx_epoll code_consts fdof c ctlret) /\
+  (forall hints, gen_init_epoll hints = ref_init_epoll code_consts hints).
+Proof. exact (conj gen_epoll_run_none_ref (conj gen_epoll_run_err_ref (conj gen_epoll_run_c_ref (conj gen_epoll_run_s_ref (conj gen_epoll_run_cs_ref (conj gen_epoll_run_sc_ref (conj gen_epoll_run_cc_ref (conj gen_epoll_run_timer_ref (conj gen_epoll_run_nocb_ref (conj gen_add_ctx_epoll_ref gen_init_epoll_ref)))))))))). Qed.
+Print Assumptions gen_epoll_matches_model.
+
+(* select: muggle_evloop_run_select on a ctx_list of 1 and of 2 contexts (fd-set rebuild, FD_CLR of a closed
+   context, nfds = running maximum, what is handed to the next select()), of none with a timer (n = 0 returns leave
+   the registrations alone, the timeval is restored after a tick), of 1 with every callback NULL;
+   muggle_evloop_add_ctx_select (never refuses: the code has no FD_SETSIZE guard); muggle_evloop_init_select *)
+Theorem gen_select_matches_model :
+  (forall FL TE RS fdof evfd nf0 c1 n err ks ku,
+  gen_select_run_1 FL TE RS fdof evfd nf0 c1 n err =
+  ref_select_run code_consts FL TE all_cbs None RS fdof evfd nf0 [c1] n err ks ku) /\
+  (forall FL TE RS fdof evfd nf0 c1 c2 n err ks ku,
+  gen_select_run_2 FL TE RS fdof evfd nf0 c1 c2 n err =
+  ref_select_run code_consts FL TE all_cbs None RS fdof evfd nf0 [c1; c2] n err ks ku) /\
+  (forall FL TE RS fdof evfd nf0 n err tmo elapsed ktv_sec ktv_usec,
+  gen_select_run_timer FL TE RS fdof evfd nf0 n err tmo elapsed ktv_sec ktv_usec =
+  ref_select_run code_consts FL TE all_cbs (Some (tmo, elapsed)) RS fdof evfd nf0 [] n err ktv_sec ktv_usec) /\
+  (forall FL TE RS fdof evfd nf0 c1 n err ks ku,
+  gen_select_run_nocb FL TE RS fdof evfd nf0 c1 n err =
+  ref_select_run code_consts FL TE no_cbs None RS fdof evfd nf0 [c1] n err ks ku) /\
+  (forall fdof evfd nf0 c,
+  gen_add_ctx_select fdof evfd nf0 c = ref_add_ctx_select fdof nf0 c) /\
+  (forall evfd hints garbage, gen_init_select evfd hints garbage = ref_init_select evfd).
+Proof. exact (conj gen_select_run_1_ref (conj gen_select_run_2_ref (conj gen_select_run_timer_ref (conj gen_select_run_nocb_ref (conj gen_add_ctx_select_ref gen_init_select_ref))))). Qed.
+Print Assumptions gen_select_matches_model.
+
+(* event_loop.c / event_context.c: muggle_evloop_add_ctx (wrong thread and set_nonblock failure refuse without
+   touching ctx_list; a context refused by ANY back-end is taken off ctx_list again), the epilogue of
+   muggle_evloop_run (clear callback for every context still listed, whatever its flags, then the exit callback;
+   also with both NULL), muggle_evloop_init (default of hints_max_fd, node pool size, no timer),
+   muggle_ev_ctx_read (end of file AND every error other than would-block / interrupted flag the context CLOSED) *)
+Theorem gen_loop_matches_model :
+  (forall fdof ty tid cur nbret c0 c bret,
+  gen_loop_add_ctx fdof ty tid cur nbret c0 c bret = ref_loop_add_ctx fdof tid cur nbret c0 c bret) /\
+  (forall FL TE ty c1 c2, gen_loop_run_2 FL TE ty c1 c2 = ref_loop_run all_cbs [c1; c2]) /\
+  (forall FL TE ty c1 c2, gen_loop_run_nocb FL TE ty c1 c2 = ref_loop_run no_cbs [c1; c2]) /\
+  (forall hints pool garbage, gen_loop_init hints pool garbage = ref_loop_init code_consts hints pool) /\
+  (forall FL fdof c len n err, gen_ctx_read FL fdof c len n err = ref_ctx_read code_consts FL c n err).
+Proof. exact (conj gen_loop_add_ctx_ref (conj gen_loop_run_2_ref (conj gen_loop_run_nocb_ref (conj gen_loop_init_ref gen_ctx_read_ref)))). Qed.
+Print Assumptions gen_loop_matches_model.
+Local Close Scope Z_scope.
+
+(* the per-visit decisions of the reference functions are the decisions of the model's step functions:
+   executing dec_poll / dec_epoll / dec_select with the model's callbacks IS poll_step / ep_step / one step of
+   sel_walk; the references' swap-with-last is poll_remove; table capacities and refusal are the code's *)
+Theorem evl_step_decisions_are_the_models :
+  (forall i n s x re, i <> 0 -> nth_error (parr s) i = Some (x, re) ->
+     poll_step i n s =
+     run_dec_poll (dec_poll (has_in re) (has_hup_err re) (cflag (cx s x)) (cflag (cx (cb_read x s) x))) x i n s) /\
+  (forall x e s, x <> 0 ->
+     ep_step x e s =
+     run_dec_epoll (dec_epoll (has_in e) (has_hup_err e) (cflag (cx s x)) (cflag (cx (cb_read x s) x))) x s) /\
+  (forall f i rep s x, nth_error (clist s) i = Some x ->
+     sel_walk (S f) i rep s =
+     let '(dr, dcl) := dec_select (negb (Nat.eqb (lookup x rep) 0)) (cflag (cx s x)) (cflag (cx (cb_read x s) x)) in
+     let s1 := if dr then cb_read x s else s in
+     if dcl then
+       let s2 := cb_close x (set_sset (rm x (sset s1)) s1) in
+       sel_walk f i rep (set_clist (rm x (clist s2)) s2)
+     else sel_walk f (S i) rep (set_sset (add_set x (sset s1)) s1)) /\
+  (forall i (l : list (nat * nat)), slot_remove (0, 0) i l = poll_remove i l) /\
+  (forall b sc, Z.of_nat (pcap (init b sc)) = ref_capacity (Z.of_nat (s_hints sc)) /\
+                Z.of_nat (ecap (init b sc)) = ref_capacity (Z.of_nat (s_hints sc)) /\
+                length (parr (init b sc)) = 1 /\ sset (init b sc) = [0]) /\
+  (forall x s, (bk s = BPoll -> snd (backend_add x s) = negb (Z.of_nat (length (parr s)) =? Z.of_nat (pcap s))%Z) /\
+               (bk s = BSelect -> snd (backend_add x s) = true) /\
+               (bk s = BEpoll -> snd (backend_add x s) = true)).
+Proof.
+  exact (conj poll_step_is_dec (conj ep_step_is_dec (conj sel_walk_is_dec (conj slot_remove_is_poll_remove
+        (conj model_capacity_is_code model_refusal_is_code))))).
+Qed.
+Print Assumptions evl_step_decisions_are_the_models.
